@@ -109,8 +109,8 @@ class Ctx:
 
     def add_obligation(self, st: State, kind, clause, goal, meta=None, soft=False):
         goal_s = sbool(goal) if is_sym(goal) else bool(goal)
-        if goal_s is True:
-            # trivially true after simplification; still count it as generated+discharged by ground evaluation
+        if goal_s is True and kind in ("bounds", "assert"):
+            # trivially true after simplification (e.g. constant index into a constant-length list)
             self.stats["trivial_" + kind] = self.stats.get("trivial_" + kind, 0) + 1
             return None
         base = f"{self.func_label}/{kind}.{clause}"
@@ -267,7 +267,7 @@ class Executor:
             n = z3.Int(path + ".len")
             self.ctx.global_axioms.append(n >= 0)
             f = self.ctx.uf(path, z3.IntSort(), z3.RealSort())
-            v = Seq(kind, n, fn=lambda j, f=f: f(j), et="real")
+            v = Seq(kind, n, fn=lambda j, f=f: f(j), et="real", uf=f)
         else:
             return self.wrap(real, path)
         self.ctx.inputs[path] = v
@@ -297,9 +297,36 @@ class Executor:
             raise PathRaise(AttributeError, f"{ref.path} has no attribute {attr}")
         return self.initial_attr(st, ref, attr)
 
+    def let_name(self, value, hint="v"):
+        """definitional extension for large scalar terms: fresh constant c with the global definition c == term.
+        Keeps later terms small and lets the solver stage drop definitions it does not need."""
+        if not is_sym(value) or self.ctx.spec_mode > 0 or getattr(self.ctx, "no_let", False):
+            return value
+        from .sigma import term_size
+        if term_size(value, 60) <= 60:
+            return value
+        memo = self.ctx.__dict__.setdefault("let_memo", {})
+        hit = memo.get(value.get_id())
+        if hit is not None and hit[0].eq(value):
+            return hit[1]
+        if z3.is_bool(value):
+            c = z3.Bool(fresh_name("let." + hint))
+        elif z3.is_int(value):
+            c = z3.Int(fresh_name("let." + hint))
+        else:
+            c = z3.Real(fresh_name("let." + hint))
+        d = c == value
+        self.ctx.global_axioms.append(d)
+        self.ctx.__dict__.setdefault("let_def_ids", set()).add(d.get_id())
+        self.ctx.__dict__.setdefault("let_defs", []).append(d)
+        memo[value.get_id()] = (value, c)
+        self.ctx.stats["let_names"] = self.ctx.stats.get("let_names", 0) + 1
+        return c
+
     def write_attr(self, st: State, ref: Ref, attr: str, value):
         if isinstance(value, Seq):
             value = st.new_cell(value)
+        value = self.let_name(value, attr)
         st.heap[(id(ref.obj), attr)] = value
         if st.log is not None:
             st.log.heap_writes.add((id(ref.obj), attr))
@@ -509,6 +536,8 @@ class Executor:
                 self.ctx.add_obligation(st, "bounds", clause, inb, meta={"line": getattr(node, "lineno", None)})
                 st.assume(inb)
             nonneg = self.cmp(">=", idx_t, 0)
+            if nonneg is not True and nonneg is not False and self.ctx.spec_mode == 0 and self.implied(st, nonneg):
+                nonneg = True
             if nonneg is True or self.ctx.spec_mode > 0:
                 # clauses index inside the range by construction (no negative wrap-around in specifications)
                 return sq.get(idx_t)
@@ -521,6 +550,43 @@ class Executor:
 
     def neg(self, x):
         return self.arith("-", 0, x)
+
+    # ---- cheap entailment from the simple (quantifier-free, small) facts on the path: used only to keep terms small
+    def implied(self, st, cond) -> bool:
+        c = sbool(cond) if is_sym(cond) else bool(cond)
+        if c is True:
+            return True
+        if c is False or st is None:
+            return False
+        memo = self.ctx.__dict__.setdefault("_implied_memo", {})
+        key = (c.get_id(), len(st.pc), st.pc[-1].get_id() if st.pc else 0)
+        hit = memo.get(key)
+        if hit is not None and hit[0].eq(c):
+            return hit[1]
+        cheap = self.ctx.__dict__.setdefault("_cheap_memo", {})
+
+        def is_cheap(p):
+            k = p.get_id()
+            h = cheap.get(k)
+            if h is not None and h[0].eq(p):
+                return h[1]
+            from .sigma import term_size
+            ok = not _has_quantifier(p) and term_size(p, 80) <= 80
+            cheap[k] = (p, ok)
+            return ok
+        s = z3.Solver()
+        s.set("timeout", 250)
+        for p in st.pc:
+            if is_cheap(p):
+                s.add(p)
+        for a in self.ctx.global_axioms:
+            if is_cheap(a):
+                s.add(a)
+        s.add(z3.Not(c))
+        r = s.check() == z3.unsat
+        memo[key] = (c, r)
+        self.ctx.stats["implied_queries"] = self.ctx.stats.get("implied_queries", 0) + 1
+        return r
 
     def norm_slice_bound(self, b, n, default):
         """python slice bound normalisation for step 1: None->default, negative wraps, clamp to [0,n]"""
@@ -793,7 +859,7 @@ class Executor:
                 return self.store_seq(st, self.concat(sa, sb))
             if sym == "*" and ((a_list and sb is None) or (b_list and sa is None)):
                 sq, k = (sa, b) if a_list else (sb, a)
-                return self.store_seq(st, self.repeat(sq, k, node))
+                return self.store_seq(st, self.repeat(sq, k, node, st))
             if a_nd or b_nd:
                 # numpy broadcasting: lists are converted to arrays
                 return st.new_cell(self.elementwise(lambda x, y: self.arith(sym, x, y), a, b, st, node).with_kind("nd"))
@@ -818,7 +884,13 @@ class Executor:
         return Seq(sa.kind, n, fn=lambda j: ite(self.cmp("<", j, na), sa.get(j), sb.get(self.arith("-", j, na))),
                    et=sa.et if sa.et == sb.et else "real")
 
-    def repeat(self, sq: Seq, k, node=None) -> Seq:
+    def nonneg_part(self, k, st=None):
+        """max(0, k), simplified to k when the path implies k >= 0"""
+        if st is not None and is_sym(k) and self.implied(st, self.cmp(">=", k, 0)):
+            return k
+        return self.vmax(0, k)
+
+    def repeat(self, sq: Seq, k, node=None, st=None) -> Seq:
         k = py_number(k)
         if isinstance(k, bool) or not (isinstance(k, int) or (is_sym(k) and z3.is_int(k))):
             self.unsupported(node, f"list repetition by non-int {k!r}")
@@ -826,8 +898,15 @@ class Executor:
             return Seq(sq.kind, sq.n * max(k, 0), items=sq.items * max(k, 0), et=sq.et)
         if sq.items is not None and sq.n == 1:
             x = sq.items[0]
-            n = self.vmax(0, k)
+            n = self.nonneg_part(k, st)
             return Seq(sq.kind, n, fn=lambda j, x=x: x, et=sq.et)
+        if sq.items is None and is_sym(sq.n):
+            # constant symbolic-length sequence ([x]*a)*b : still constant
+            r1, r2 = z3.Int("$r1"), z3.Int("$r2")
+            e1, e2 = sq.get(r1), sq.get(r2)
+            if values_identical(e1, e2):
+                n = self.arith("*", sq.n, self.nonneg_part(k, st))
+                return Seq(sq.kind, n, fn=lambda j, e1=e1: e1, et=sq.et)
         if isinstance(sq.n, int) and sq.n == 0:
             return Seq(sq.kind, 0, items=[], et=sq.et)
         # general: elements repeat with period n:  only constant sequences are supported symbolically
@@ -1104,6 +1183,12 @@ class Executor:
                 self.ctx.stats["calls_inlined"] += 1
                 return self.inline_call(f2, a2, kwargs, st, node, module=module, label=key)
             if contract is not None and contract is not self.ctx.current_contract_obj():
+                if getattr(self.ctx, "bounded", False) and not getattr(contract, "keep_contract_in_bounded", False):
+                    # bounded refutation search: execute the real callee body (concrete sizes), never used for proofs
+                    fnode, module = self.load_function(pyf)
+                    f2 = FuncVal(pyfunc=None, node=fnode, module=module, qualname=key)
+                    self.ctx.stats["calls_inlined"] += 1
+                    return self.inline_call(f2, a2, kwargs, st, node, module=module, label=key)
                 self.ctx.stats["calls_by_contract"] += 1
                 return contract.apply_at_call(self, st, a2, kwargs, node)
             self.unsupported(node, f"call to repository function without contract or inline mark: {key}")
@@ -1266,11 +1351,13 @@ class Executor:
             self.unsupported(node, "filtered comprehension over symbolic-length sequence")
         k = z3.Int(fresh_name("k"))
         saved = dict(st.frames[-1])
+        self.ctx.no_let = getattr(self.ctx, "no_let", 0) + 1    # k is substituted later: no let-names over it
         try:
             with st.guard(z3.And(k >= 0, k < to_int(sq.n))):
                 self.assign_target(gen.target, sq.get(k), st)
                 val = self.ev(node.elt, st)
         finally:
+            self.ctx.no_let -= 1
             st.frames[-1] = saved
         if not (is_sym(val) or isinstance(val, (bool, int, float))):
             self.unsupported(node, "non-scalar element in symbolic-length comprehension")
@@ -1445,9 +1532,11 @@ class Executor:
 
     def assign_target(self, t, v, st: State):
         if isinstance(t, ast.Name):
-            st.frames[-1][t.id] = self.store_seq(st, v)
+            st.frames[-1][t.id] = self.let_name(self.store_seq(st, v), t.id)
             if st.log is not None:
                 st.log.var_writes.add(t.id)
+                if len(st.frames) == st.log.depth:
+                    st.log.write_texts.append(t.id)
             return
         if isinstance(t, (ast.Tuple, ast.List)):
             if any(isinstance(e, ast.Starred) for e in t.elts):
@@ -1471,6 +1560,8 @@ class Executor:
             if not isinstance(base, Ref):
                 self.unsupported(t, f"attribute assignment on {type(base).__name__}")
             self.write_attr(st, base, t.attr, v)
+            if st.log is not None and len(st.frames) == st.log.depth:
+                st.log.write_texts.append(ast.unparse(t))
             return
         if isinstance(t, ast.Subscript):
             base = self.ev(t.value, st)
@@ -1482,6 +1573,8 @@ class Executor:
                 return
             if not isinstance(base, CellRef):
                 self.unsupported(t, f"subscript assignment on {type(base).__name__}")
+            if st.log is not None and len(st.frames) == st.log.depth:
+                st.log.write_texts.append(ast.unparse(t.value))
             sq = st.cells[base.cid]
             if isinstance(t.slice, ast.Slice):
                 lo = self.ev(t.slice.lower, st) if t.slice.lower is not None else None
@@ -1530,6 +1623,8 @@ class Executor:
                 self.ctx.add_obligation(st, "bounds", "store:" + ast.unparse(t), inb, meta={"line": t.lineno})
                 st.assume(inb)
             nonneg = self.cmp(">=", idx, 0)
+            if nonneg is not True and nonneg is not False and self.implied(st, nonneg):
+                nonneg = True
             i2 = idx if nonneg is True else ite(nonneg, idx, self.arith("+", idx, n))
             if st.log is not None:
                 st.log.writes.append((base.cid, i2))
@@ -1613,9 +1708,9 @@ class Executor:
         prefix_len = len(st.pc)
         self.ctx.stats["forks"] += 1
         s1 = st.fork()
-        s1.pc.append(c)
+        s1.decide(c)
         s2 = st
-        s2.pc.append(z3.Not(c))
+        s2.decide(z3.Not(c))
         o1 = self.exec_block(node.body, s1)
         o2 = self.exec_block(node.orelse, s2) if node.orelse else [Outcome("normal", s2)]
         outs = o1 + o2
@@ -1749,6 +1844,20 @@ class Executor:
         while all(len(s.pc) > k for s in states) and all(s.pc[k] is first[k] or s.pc[k].eq(first[k]) for s in states):
             k += 1
         return k
+
+
+def _has_quantifier(t) -> bool:
+    seen = set()
+    stack = [t]
+    while stack:
+        x = stack.pop()
+        if x.get_id() in seen:
+            continue
+        seen.add(x.get_id())
+        if z3.is_quantifier(x):
+            return True
+        stack.extend(x.children())
+    return False
 
 
 class RangeVal:
